@@ -26,30 +26,30 @@ struct VECTOR_BLF_EXPORT AttributeEvent final : ObjectHeader {
     /* static */
 
     /** @brief length of variable mainAttributableObjectPath in bytes */
-    uint32_t mainAttributableObjectPathLength;
+    uint32_t mainAttributableObjectPathLength {};
 
     /** @brief length of variable memberPath in bytes */
-    uint32_t memberPathLength;
+    uint32_t memberPathLength {};
 
     /** @brief length of variable attributeDefinitionPath in bytes */
-    uint32_t attributeDefinitionPathLength;
+    uint32_t attributeDefinitionPathLength {};
 
     /** @brief length of variable data in bytes */
-    uint32_t dataLength;
+    uint32_t dataLength {};
 
     /* dynamic */
 
     /** @brief path of the main attributable object */
-    std::string mainAttributableObjectPath;
+    std::string mainAttributableObjectPath {};
 
     /** @brief path of the member (optional) */
-    std::string memberPath;
+    std::string memberPath {};
 
     /** @brief path of the attribute definition */
-    std::string attributeDefinitionPath;
+    std::string attributeDefinitionPath {};
 
     /** @brief variable data */
-    std::vector<uint8_t> data;
+    std::vector<uint8_t> data {};
 };
 
 }
